@@ -40,6 +40,42 @@ CORPUS = [
 ]
 
 
+# escape sequences: every escape form x digit count 0..12 x digit pattern, terminated or not, in every literal context
+ESC_CTX = ['let s = "a%s";', "let s = 'a%s';", 'let s = `a%s`;', 'let s = `a${n}%s`;', 'let s = `a${n}b${m}%s${k}z`;', 'tag`%s`;', 'tag`a${n}%s`;', 'type T = `%s`;', 'type T = `a${string}%s`;',
+           'let a%s = 1;', 'let r = /a%s/u;', 'o = { "%s": 1 };', 'import x from "%s";', "enum E { 'a%s' = 1 }"]
+
+
+def escape_texts():
+    esc = set()
+    for n in range(0, 13):
+        for digs in ("F" * n, ("1" + "0" * (n - 1)) if n else "", "0" * n, ("0" * (n - 1) + "1") if n else "", ("1F6" + "0" * (n - 3)) if n >= 3 else "", "f" * n, "G" * n, "10FFFF"[:n] if n <= 6 else "0" * (n - 6) + "10FFFF", "110000"[:n] if n <= 6 else "0" * (n - 6) + "110000"):
+            esc |= {"\\u{" + digs + "}", "\\u{" + digs, "\\u" + digs, "\\x" + digs}
+    return [c % e for c in ESC_CTX for e in sorted(esc)]
+
+
+# member positions of every braced / parenthesised list construct: each vocabulary token as the only member, after a member,
+# before a member and between two members (pairs of tokens likewise) - error recovery inside bodies has to make progress
+BODIES = [("class A { %s }", "x: number;", "m() {}"), ("abstract class A { %s }", "abstract x: number;", "abstract m(): void;"), ("declare class A { %s }", "x: number;", "m(): void;"),
+          ("declare abstract class A { %s }", "x: number;", "abstract m(): void;"), ("export declare class A<T> extends B<T> implements C { %s }", "static readonly x?: T;", "constructor(a: T);"),
+          ("interface I { %s }", "x: number;", "m(): void;"), ("declare namespace N { %s }", "const z: number;", "function f(): void;"), ("namespace N { %s }", "const z = 1;", "export function f() {}"),
+          ('declare module "m" { %s }', "export const z: number;", "export default class {}"), ("declare global { %s }", "interface W { x: number }", "var g: number;"),
+          ("enum E { %s }", "A,", "B = 2,"), ("declare enum E { %s }", "A,", "B = 2,"), ("const enum E { %s }", "A,", "B = 2,"), ("type T = { %s };", "x: number;", "m(): void;"),
+          ("o = { %s };", "a: 1,", "b() {},"), ("switch (x) { %s }", "case 1: a;", "default: b;"), ("declare function f(%s): void;", "a: number,", "b?: string,"), ("function f(%s) {}", "a: number,", "b = 1,"),
+          ("let v: (%s) => void;", "a: number,", "b?: string,"), ("let [%s] = a;", "a,", "b = 1,"), ("let {%s} = o;", "a,", "b: c = 1,"), ("f<%s>(1);", "A,", "B[],"), ("import { %s } from 'm';", "a,", "b as c,"),
+          ("export { %s };", "a,", "b as c,"), ("class A<%s> {}", "T,", "U extends T = T,")]
+
+
+def body_texts(rnd, quick):
+    out = []
+    for tpl, m1, m2 in BODIES:
+        for t in TOKENS:
+            out += [tpl % t, tpl % (m1 + " " + t), tpl % (t + " " + m2), tpl % (m1 + " " + t + " " + m2), tpl % (m1 + " " + t + " " + t + " " + m2)]
+        pairs = list(itertools.product(TOKENS, repeat=2))
+        for a, b in rnd.sample(pairs, 150 if quick else 2000):
+            out.append(tpl % (m1 + " " + a + " " + b + " " + m2))
+    return out
+
+
 def poison_variants(src):
     """a valid nesting made invalid at its deepest point or cut off before it closes: rejected inputs obey the same budget"""
     out = []
@@ -105,6 +141,9 @@ def main(tier):
             soups.append(line[:cut]); soups.append(line[:cut] + "\u20ac"); soups.append(line[:cut] + "\U0001d4b3x")
         for k in range(len(line)):
             soups.append(line[:k] + line[k + 1:])
+    n_before = len(soups)
+    soups += escape_texts() + body_texts(rnd, quick)
+    log("escape grid and member-position grid: %d texts" % (len(soups) - n_before))
     # ---- prefixes and single-token mutations of valid programs
     progs = mjcheck.gen_programs(c.seed * 3 + 1, 25 if quick else 200, objects=True, gens=True)
     import re
@@ -117,8 +156,11 @@ def main(tier):
         for _ in range(30 if quick else 150):
             w2 = list(words); w2[rnd.randrange(len(w2))] = rnd.choice(toks); soups.append(" ".join(w2))
     jobs = [{"id": i, "source": s} for i, s in enumerate(soups)]
-    got = M.run_jobs(exe, "parsework", jobs, timeout=2400)
+    got = M.run_jobs(exe, "parsework", jobs, timeout=2400, max_hangs=8)
+    stopped = "__stopped__" in got
+    if stopped: log("8 texts hang the front end: the remaining texts are left unmeasured (%d of %d measured)" % (len(got) - 1, len(soups)))
     for i, s in enumerate(soups):
+        if stopped and i not in got: continue
         r = got.get(i, {"status": "CRASH"})
         st = r.get("status", "CRASH"); st = "crash" if st.startswith("CRASH") else "hang" if st == "HANG" else st
         inputs.append({"cls": "soup", "len": len(s), "work": r.get("work", 0), "status": st, "source": s if len(s) < 300 else s[:300] + " ..."})
